@@ -467,7 +467,9 @@ def judgeCase (S : Schema) (inp obs : Json) : Except String Verdict := do
   let ftags := ((S.fieldsOf m).zip v).flatMap fun (f, x) =>
     let ts := tagsOf S f x 0
     if ts.isEmpty || ts == ["submsg:absent"] then ts else s!"field:{name}.{f.name}" :: ts
-  let excl := !wt
+  -- a message BUILT BY THE HELPER API from well-formed arguments (stream `helper`) is never excused
+  -- as outside the domain: if it is ill-typed, the helpers made it so
+  let excl := !wt && stream != "helper"
   let exclSig :=
     if !excl then ""
     else if pbErr == "invalid-utf8" then
